@@ -58,11 +58,35 @@ def c_side(repo):
     funs = {}
     enums = set()
     scalars = {}
+    # clang prints the "file" of a source location only when it differs from the location printed just before it,
+    # ANYWHERE in the dump (also inside nested nodes): follow every location in document order
+    state = {"cur": None}
+
+    def see(l):
+        if isinstance(l, dict):
+            for key in ("spellingLoc", "expansionLoc"):
+                if key in l:
+                    see(l[key])
+            if l.get("file"):
+                state["cur"] = l["file"]
+
+    def walk_locs(n):
+        see(n.get("loc"))
+        r = n.get("range")
+        if isinstance(r, dict):
+            see(r.get("begin")); see(r.get("end"))
+        for c in n.get("inner", []) or []:
+            if isinstance(c, dict):
+                walk_locs(c)
     for x in d["inner"]:
-        loc = x.get("loc", {})
-        f = loc.get("file") or loc.get("spellingLoc", {}).get("file") or loc.get("expansionLoc", {}).get("file")
-        if f:
-            cur = f
+        see(x.get("loc"))
+        cur = state["cur"]
+        r_ = x.get("range")
+        if isinstance(r_, dict):
+            see(r_.get("begin")); see(r_.get("end"))
+        for c_ in x.get("inner", []) or []:
+            if isinstance(c_, dict):
+                walk_locs(c_)
         if not cur or os.path.basename(cur) not in names or not (cur.startswith(src) or "/scientific/" in cur):
             continue
         k = x["kind"]
